@@ -131,7 +131,7 @@ fn rows_of(a: &Array3<i64>, ch: usize) -> Vec<String> {
 
 fn counting(out: &mut Out) {
     let mut rng = out.rng("c09-count");
-    let n = out.n(120, 1500);
+    let n = out.n(120, 500);
     for _ in 0..n {
         let id = out.fresh_id("cnt");
         let n_chains = if rng.coin(0.2) { 1 } else { rng.range(1, 32) } as usize;
@@ -197,7 +197,7 @@ impl Target<f64, f64> for QuadTarget {
 
 fn mh(out: &mut Out) {
     let mut rng = out.rng("c09-mh");
-    let n = out.n(40, 400);
+    let n = out.n(40, 250);
     for _ in 0..n {
         let id = out.fresh_id("mh");
         let n_chains = rng.range(1, 8) as usize;
@@ -267,7 +267,7 @@ impl Conditional<f64> for CounterCond {
 
 fn gibbs(out: &mut Out) {
     let mut rng = out.rng("c09-gibbs");
-    let n = out.n(40, 400);
+    let n = out.n(40, 250);
     for _ in 0..n {
         let id = out.fresh_id("gb");
         let n_chains = rng.range(1, 8) as usize;
@@ -339,7 +339,7 @@ fn hmc_pos(h: &HMC<f32, B32, DiffableGaussian2D<f32>>) -> Vec<Vec<f32>> {
 
 fn hmc(out: &mut Out) {
     let mut rng = out.rng("c09-hmc");
-    let n = out.n(25, 250);
+    let n = out.n(25, 150);
     for _ in 0..n {
         let id = out.fresh_id("hmc");
         let n_chains = rng.range(1, 6) as usize;
@@ -419,7 +419,7 @@ fn nuts_key(c: &NChain) -> (Vec<u64>, rand::rngs::SmallRng, (usize, usize, u64, 
 
 fn nuts(out: &mut Out) {
     let mut rng = out.rng("c09-nuts");
-    let n = out.n(20, 200);
+    let n = out.n(20, 80);
     for _ in 0..n {
         let id = out.fresh_id("nuts");
         let n_chains = rng.range(1, 4) as usize;
